@@ -314,6 +314,59 @@ class Store:
         if hi is not None:
             self.add_le(e - hi)
 
+    def drop_dead(self, live):
+        """forget symbols outside `live` (set of symbols that still occur in values):
+        cheap ones are eliminated exactly (Fourier-Motzkin step), the others' rows are dropped
+        (sound: the store only gets weaker).  Equalities defining dead symbols are removed."""
+        if self.unsat:
+            return
+        for x in [x for x in self.eqs if x not in live]:
+            del self.eqs[x]
+        live = set(live)
+        for e in self.eqs.values():
+            for s_, _ in e.t:
+                live.add(s_)
+        self.nes = {e for e in self.nes if all(s_ in live for s_, _ in e.t)}
+        while True:
+            occ = {}
+            for e in self.les:
+                for s_, c in e.t:
+                    if s_ in live:
+                        continue
+                    p = occ.get(s_)
+                    if p is None:
+                        p = occ[s_] = [0, 0]
+                    if c > 0:
+                        p[0] += 1
+                    else:
+                        p[1] += 1
+            if not occ:
+                break
+            s_ = min(occ, key=lambda k: occ[k][0] * occ[k][1])
+            pn = occ[s_]
+            pos, neg, rest = [], [], set()
+            for e in self.les:
+                c = e.coeff(s_)
+                if c > 0:
+                    pos.append((c, e))
+                elif c < 0:
+                    neg.append((-c, e))
+                else:
+                    rest.add(e)
+            if pn[0] * pn[1] <= max(pn[0] + pn[1], 6):
+                for cp, rp in pos:
+                    for cn, rn in neg:
+                        g = gcd(cp, cn)
+                        n = norm_le(rp * (cn // g) + rn * (cp // g))
+                        if n is True:
+                            continue
+                        if n is False:
+                            self.unsat = True
+                            return
+                        rest.add(n)
+            self.les = rest
+        self._cache = {}
+
     # ---- queries
     def _cone(self, syms):
         """inequalities in the cone of influence of `syms`"""
@@ -458,6 +511,8 @@ class Store:
 
 
 FM_ROW_CAP = 3000
+import os as _os
+KOHLER = not _os.environ.get('MCAI_NO_KOHLER')
 
 
 def _norm_row(d, k):
@@ -529,7 +584,7 @@ def fm_eliminate(rows, keep=()):
         for cp, tp, kp, hp in pos:
             for cn, tn, kn, hn in neg:
                 h = hp | hn
-                if len(h) > nelim + 1:
+                if KOHLER and len(h) > nelim + 1:
                     continue            # Kohler: redundant
                 g = gcd(cp, cn)
                 a, b = cn // g, cp // g
